@@ -17,8 +17,39 @@ type Unspec struct {
 }
 
 func (pass *Unspec) Process(schemas []*ast.Schema) ([]*ast.Schema, error) {
+	var renames Passes
+
 	for i, schema := range schemas {
+		// references to the renamed "spec" objects have to follow them
+		schema.Objects.Iterate(func(_ string, object ast.Object) {
+			if !strings.EqualFold(object.Name, "spec") || !object.Type.IsStruct() {
+				return
+			}
+
+			newName := schema.Package
+			if schema.Metadata.Identifier != "" {
+				newName = schema.Metadata.Identifier
+			}
+
+			renames = append(renames, &ReplaceReference{
+				From: ObjectReference{Package: schema.Package, Object: object.Name},
+				To:   ObjectReference{Package: schema.Package, Object: newName},
+			})
+
+			if strings.EqualFold(schema.EntryPoint, object.Name) {
+				schema.EntryPoint = newName
+			}
+		})
+
 		schemas[i] = pass.processSchema(schema)
+	}
+
+	var err error
+	for _, rename := range renames {
+		schemas, err = rename.Process(schemas)
+		if err != nil {
+			return nil, err
+		}
 	}
 
 	return schemas, nil
